@@ -63,6 +63,15 @@ def lang(pattern):
 
 
 def extra(rep, tier, seed, budget):
+    # the names add_to_queue derives (q/<version>, q/w/<pr>/<version>/<source>) - contract shared with C01
+    from pyvc import cli as _cli
+    from specs import c01 as _c01
+    _e01 = _c01.base_env()
+    for _c in _c01.contracts(_e01):
+        if 'add_to_queue[1 targets]' in _c.label:
+            _c.label = _c.label + ' [C18 derived queue names]'
+            _cli.handle_function(rep, _c01, _e01, _c, budget, _cli.load_lock().get('C18', {}))
+    rep.trusted.extend(_e01.trusted)
     from pyvc.cli import write_replay
     name = smt.Var('name', smt.STR)
     valid_ref = smt.StrInRe(name, smt.ReStar(regex.ANYCHAR_NO_NL))     # git ref names hold no newline
